@@ -84,6 +84,21 @@ def cases(tier, seed):
                        'nmax': 48},
                 'n_tuples': int(r.choice([12, 24, 40, 2, 3, 5])),
                 'seed': int(r.randint(1000))})
+  # long trajectories in two and three dimensions: rejected cycles followed
+  # by accepted ones, projections that start from a restored iterate
+  for i in range(80 if q else 1600):
+    r = rng_for('c14-long', seed, i)
+    out.append({'est': 'MMC', 'tight': False,
+                'params': {'init': ['identity', 'covariance', 'random',
+                                    '@spd'][i % 4],
+                           'max_iter': 60, 'max_proj': [50, 1000, 10000][i % 3],
+                           'tol': 1e-6, 'diagonal': False},
+                'ds': {'seed': int(r.randint(2**31 - 1)),
+                       'd': 2 if i % 3 else 3,
+                       'classes': int(r.randint(2, 4)), 'variant': 'plain',
+                       'nmax': 48},
+                'n_tuples': int(r.choice([12, 24, 40])),
+                'seed': int(r.randint(1000))})
   return out
 
 
@@ -94,7 +109,8 @@ def required(tier):
           'C14.initial-matrix': n, 'C14.trace-follows-scheme': n,
           'C14.result-last-accepted': n, 'C14.diagonal': 10 if q else 120,
           'C14.first-projection-converges': n,
-          'C14.tight-max_proj': n // 4}
+          'C14.tight-max_proj': n // 4,
+          'C14.candidates-follow-scheme': n}
 
 
 def _sumsq(A, diffs):
@@ -150,6 +166,82 @@ def _reference_need(A0, S, t, cap, eps=0.01):
       return it + 1 if clear else None
     prev = err
   return None
+
+
+def _reference_cycles(A0, S, Dn, t, max_iter, max_proj, tol, eps=0.01):
+  """Sequential re-execution of the full-matrix scheme (Xing et al. as the
+  library documents it): per cycle the matrix the cycle started from, the
+  projected candidate, and whether a decision of that cycle was too close to
+  call (projection test within 1e-6 of its threshold, objectives within 1e-10
+  relative).  Written with explicit sums, no shared code."""
+  d = A0.shape[0]
+
+  def fS1():
+    G = np.zeros((d, d))
+    for v in S:
+      G += np.outer(v, v)
+    return G
+
+  def fD(A):
+    return float(np.log(sum(np.sqrt(max(v.dot(A).dot(v), 0.0)) for v in Dn)
+                        + 1e-6))
+
+  def fD1(A):
+    dist = np.array([np.sqrt(max(v.dot(A).dot(v), 0.0)) for v in Dn])
+    G = np.zeros((d, d))
+    for v, di in zip(Dn, dist):
+      G += np.outer(v, v) * (0.5 / (di + 1e-6))
+    return G / (dist.sum() + 1e-6)
+
+  def gproj(g1, g2):
+    g2 = g2 / np.linalg.norm(g2)
+    g = g1 - np.sum(g1 * g2) * g2
+    return g / np.linalg.norm(g)
+
+  w = fS1().ravel()
+  wn = np.linalg.norm(w)
+  w1, t1 = w / wn, t / wn
+  A = np.array(A0, dtype=float, copy=True)
+  alpha = 0.1
+  M = gproj(fS1(), fD1(A))
+  A_old = A.copy()
+  out = []
+  for cycle in range(int(max_iter)):
+    satisfy = False
+    close = False
+    for it in range(int(max_proj)):
+      x0 = A.ravel()
+      s0 = w.dot(x0)
+      # (when s0 equals t up to rounding, projecting or not is the same
+      # matrix up to rounding: not a decision that can bifurcate)
+      if s0 > t:
+        A = (x0 + (t1 - w1.dot(x0)) * w1).reshape(d, d)
+      lam, V = np.linalg.eigh((A + A.T) / 2)
+      A = (V * np.maximum(0, lam)).dot(V.T)
+      err = (w.dot(A.ravel()) - t) / t
+      if abs(err - eps) <= 1e-6 * eps:
+        close = True
+      if err < eps:
+        satisfy = True
+        break
+    obj_prev, obj = fD(A_old), fD(A)
+    if abs(obj - obj_prev) <= 1e-10 * max(abs(obj), 1.0) and cycle > 0:
+      close = True
+    out.append({'A_old': A_old.copy(), 'cand': A.copy(), 'close': close})
+    if close:
+      break
+    if satisfy and (obj > obj_prev or cycle == 0):
+      alpha *= 1.05
+      A_old = A.copy()
+      M = gproj(fD1(A), fS1())
+      A = A + alpha * M
+    else:
+      alpha /= 2
+      A = A_old + alpha * M
+    delta = np.linalg.norm(alpha * M) / np.linalg.norm(A_old)
+    if delta < tol:
+      break
+  return out
 
 
 def run_case(spec, j):
@@ -292,6 +384,28 @@ def run_case(spec, j):
     j.margin('C14.budget', ssqM / (1.01 * t))
   else:
     j.count('budget.out-of-domain(first-projection-infeasible)')
+  # every cycle's candidate is the one the documented scheme produces
+  # (sequential re-execution; compared until a decision is too close to call)
+  ref = _reference_cycles(A0, S, Dn, t, p['max_iter'], p['max_proj'],
+                          p['tol'])
+  okc, whyc, ncmp = True, None, 0
+  for c, rc in enumerate(ref):
+    if 2 * c + 1 >= len(trace):
+      break
+    cand = trace[2 * c + 1][0]
+    sc = max(np.abs(rc['cand']).max(), 1e-300)
+    if rc['close']:
+      break
+    ncmp += 1
+    if np.abs(cand - rc['cand']).max() > 1e-6 * sc:
+      okc = False
+      whyc = dict(cycle=c, max_rel_dev=float(np.abs(cand - rc['cand']).max()
+                                             / sc))
+      break
+  if ncmp:
+    j.check('C14.candidates-follow-scheme', okc, dict(det, why=whyc,
+                                                      cycles_compared=ncmp))
+    j.count('c14.cycles-compared', ncmp)
   if first_feasible and spec.get('tight'):
     # "max_proj large enough for one projection to converge", with no slack:
     # the number of alternating projections the documented scheme needs from
